@@ -5,6 +5,10 @@ read from the AST of the working tree and printed as Gallina boolean functions /
   HDKey.child_public       the test of the first `if` on `index` that raises
   HDKey.subkey_for_path    the marker string of `item[-1] in "..."`; on the public branch, whether a
                            marked element raises; the test of the `if` on (hardened, index) that raises
+  state                    everything the derivation methods write outside their local variables (attribute and
+                           subscript stores, mutating calls on self or on globals, global statements, decorators,
+                           mutable defaults): nothing; the attributes HDKey.__init__ sets; what public() clears on its
+                           deepcopy; what public_master / network_change write on self (the wallet settings)
 Proofs/Bip32Glue.v proves each item equal to what Model/Bip32.v uses, so a source edit of a threshold,
 comparison operator, marker set or flag handling breaks a proof.  A shape outside the fragment does not
 abort the run: the item is emitted as [gen_untranslated] (a unit value), which cannot satisfy the glue."""
@@ -56,6 +60,82 @@ def find_method(tree, cls, name):
                 if isinstance(f, ast.FunctionDef) and f.name == name:
                     return f
     raise Untranslatable('%s.%s not found' % (cls, name))
+
+
+MUTATORS = {'append', 'extend', 'insert', 'remove', 'pop', 'clear', 'update', 'setdefault', 'add', 'discard', 'popitem',
+            'sort', 'reverse', '__setitem__', '__delitem__', '__setattr__', 'appendleft', 'cache_clear'}
+
+
+def chain_of(n):
+    """'root.attr.attr' of an attribute / subscript chain (subscripts are skipped), and the root name"""
+    parts = []
+    while isinstance(n, (ast.Attribute, ast.Subscript, ast.Call)):
+        if isinstance(n, ast.Attribute):
+            parts.append(n.attr)
+            n = n.value
+        elif isinstance(n, ast.Subscript):
+            n = n.value
+        else:
+            parts.append('()')
+            n = n.func
+    root = n.id if isinstance(n, ast.Name) else '?'
+    return '.'.join([root] + parts[::-1]), root
+
+
+def writes_of(f):
+    """everything a method writes that is not a plain local variable, in source order"""
+    local = {a.arg for a in f.args.args + f.args.kwonlyargs}
+    for n in ast.walk(f):
+        if isinstance(n, ast.Name) and isinstance(n.ctx, ast.Store):
+            local.add(n.id)
+    selfname = f.args.args[0].arg if f.args.args else None
+    out = []
+    for d in f.decorator_list:
+        name = chain_of(d)[0]
+        if name not in ('staticmethod', 'property', 'classmethod'):
+            out.append('@' + name)
+    for d in f.args.defaults + [k for k in f.args.kw_defaults if k is not None]:
+        if isinstance(d, (ast.Dict, ast.List, ast.Set, ast.Call, ast.ListComp, ast.DictComp, ast.SetComp)):
+            out.append('mutable default')
+
+    def target(t):
+        if isinstance(t, (ast.Tuple, ast.List)):
+            for e in t.elts:
+                target(e)
+        elif isinstance(t, ast.Starred):
+            target(t.value)
+        elif isinstance(t, (ast.Attribute, ast.Subscript)):
+            out.append(chain_of(t)[0])
+
+    for n in ast.walk(f):
+        if isinstance(n, ast.Assign):
+            for t in n.targets:
+                target(t)
+        elif isinstance(n, (ast.AugAssign, ast.AnnAssign)):
+            target(n.target)
+        elif isinstance(n, ast.Delete):
+            for t in n.targets:
+                target(t)
+        elif isinstance(n, (ast.For, ast.AsyncFor)):
+            target(n.target)
+        elif isinstance(n, ast.withitem) and n.optional_vars is not None:
+            target(n.optional_vars)
+        elif isinstance(n, ast.NamedExpr):
+            target(n.target)
+        elif isinstance(n, (ast.Global, ast.Nonlocal)):
+            out += ['global ' + x for x in n.names]
+        elif isinstance(n, ast.Call):
+            if isinstance(n.func, ast.Name) and n.func.id in ('setattr', 'delattr'):
+                out.append(n.func.id + '()')
+            elif isinstance(n.func, ast.Attribute) and n.func.attr in MUTATORS:
+                name, root = chain_of(n.func)
+                if root == selfname or root not in local:
+                    out.append(name + '()')
+    return out
+
+
+def strings(l):
+    return list_lit([string_lit(x) for x in l])
 
 
 def item(out, name, typ, fn):
@@ -171,4 +251,41 @@ def generate(repo):
     item(out, 'gen_marked_guard', 'bool -> Z -> bool', marked_guard)
     item(out, 'gen_negative_guard', 'Z -> bool', negative_guard)
     item(out, 'gen_bare_M_public', 'bool', bare_public)
+
+    def derivation_writes():
+        l = []
+        for m in ('from_seed', '_key_derivation', 'fingerprint', 'subkey_for_path', 'child_private', 'child_public'):
+            l += ['%s: %s' % (m, w) for w in writes_of(find_method(tree, 'HDKey', m))]
+        return strings(l)
+
+    def lazy_writes():
+        # the memoised renderings of the public key the derivation code reads (functions of the immutable key)
+        l = []
+        for m in ('x', 'y', 'public_point', 'hash160'):
+            l += ['%s: %s' % (m, w) for w in writes_of(find_method(tree, 'Key', m))]
+        return strings(l)
+
+    def init_fields():
+        f = find_method(tree, 'HDKey', '__init__')
+        return strings([w for w in writes_of(f)])
+
+    def public_copy():
+        f = find_method(tree, 'HDKey', 'public')
+        for n in f.body:
+            if isinstance(n, ast.Assign) and isinstance(n.value, ast.Call) and len(n.value.args) == 1 and \
+                    isinstance(n.value.args[0], ast.Name) and n.value.args[0].id == 'self' and not n.value.keywords:
+                return string_lit('%s = %s(self)' % (chain_of(n.targets[0])[0], chain_of(n.value.func)[0]))
+        raise Untranslatable('no `x = f(self)` in public()')
+
+    item(out, 'gen_derivation_writes', 'list string', derivation_writes)
+    item(out, 'gen_key_lazy_writes', 'list string', lazy_writes)
+    item(out, 'gen_hdkey_init_writes', 'list string', init_fields)
+    item(out, 'gen_public_copy', 'string', public_copy)
+    item(out, 'gen_public_writes', 'list string', lambda: strings(writes_of(find_method(tree, 'HDKey', 'public'))))
+    item(out, 'gen_public_master_writes', 'list string', lambda: strings(writes_of(find_method(tree, 'HDKey', 'public_master'))))
+    item(out, 'gen_public_master_multisig_writes', 'list string',
+         lambda: strings(writes_of(find_method(tree, 'HDKey', 'public_master_multisig'))))
+    item(out, 'gen_network_change_writes', 'list string', lambda: strings(writes_of(find_method(tree, 'HDKey', 'network_change'))))
+    # not tied yet: [] once fixes/C03-8 is in (before the repair wif(child_index=n) stores n: ["self.child_index"])
+    item(out, 'gen_wif_writes', 'list string', lambda: strings(writes_of(find_method(tree, 'HDKey', 'wif'))))
     return {'GenBip32.v': '\n'.join(out) + '\n'}
